@@ -178,6 +178,8 @@ def features(rec) -> list:
                 out.add("mapping-nonstring-key")
         if t[0] == "union" and ["none"] in t[1] and len(t[1]) >= 3:
             out.add("union-none-3plus")
+        if t[0] == "opt" and t[1][0] == "union" and len(t[1][1]) >= 2:
+            out.add("union-none-3plus")          # Optional[Union[A, B]] IS Union[A, B, None]
         if t[0] in ("tuple",) and ["none"] in t[1]:
             out.add("none-typed-element")
         if t[0] in ("utuple", "ustar") and (["none"] in t[1] or ["none"] in t[3] or t[2] == ["none"]):
@@ -223,6 +225,11 @@ def features(rec) -> list:
                         out.add("call-dialect-option-shadowed-by-flag-default")
                     if "serialize_by_alias" in dopts and "by_alias_flag" in fl and not ("by_alias" in kws and "by_alias_flag" in top):
                         out.add("call-dialect-option-shadowed-by-flag-default")
+    if rec.get("entry") == "codec":
+        # a codec compiles its own packer for a mixin class: keyword flags shared by an outer and a nested class are not forwarded
+        flagsets = [set(o[1]) & {"omit_none_flag", "by_alias_flag"} for t in subs if t[0] == "dc" and len(t) > 3 for o in t[3] if o[0] == "flags"]
+        if any(a & b for i, a in enumerate(flagsets) for b in flagsets[i + 1:]):
+            out.add("codec-entry-nested-classes-sharing-keyword-flag")
     inp = rec.get("input")
     if inp is not None and rec.get("clause") in ("wire", "not-basic", "json-dumps", "roundtrip", "encode-raises", "schema-rejects-output"):
         try:
